@@ -9,6 +9,7 @@ m=json.load(open('$d/meta.json'))
 ps=[]
 for c in m.get('caught_by',[]):
     p=c.split()[0]
+    if not re.match(r'^C[0-9][0-9]$', p): continue
     if p not in ps: ps.append(p)
 print(' '.join(ps) or m['property'])")
   out=$(py/seedtest.py $d $props 2>&1)
